@@ -169,6 +169,6 @@ def runC (c : Cfg) : Nat → Nat → World → World
 
 def execTopC (c : Cfg) (fuel : Nat) (w : World) (op : Op) : World :=
   if w.mode = .aborted ∨ w.mode = .stuck then w
-  else (runC c fuel 0 { w with stack := [.script [op] none none, .catchTop], events := [], ret := .ok }).compact
+  else (runC c fuel 0 { w with stack := [.script [op] none none true, .catchTop], events := [], ret := .ok }).compact
 
 end RustCc
